@@ -13,7 +13,10 @@ import (
 	"context"
 	"encoding/binary"
 	"fmt"
+	"github.com/ethereum/go-ethereum/p2p/discover/v5wire"
+	"github.com/ethereum/go-ethereum/p2p/netutil"
 	"net"
+	"net/netip"
 	"sync"
 	"sync/atomic"
 	"time"
@@ -377,6 +380,96 @@ func extraOutbound(r *lib.Run, idx, limit int) {
 		}
 	}
 	w.verdict("offer:accept-ignore-with-result", "outbound", 150*time.Second, nil)
+	// (c) the peer accepts, lets the node connect (answers the SYN) and then never acknowledges a byte: the stream is
+	// written into the node's send buffer at once, but the transfer is in progress until the stream is closed
+	stall, err := w.hub.StartAdversary(pnode.AdvOpts{Key: pnode.NewKey(r.RNG("stalling-peer", idx)), Addr: pnode.Addr4(10, 16, 8, 1, 9100), Versions: []uint8{0, 1}, RespTimeout: 2 * time.Second})
+	if err != nil {
+		r.FloorMiss("stalling peer: %v", err)
+		return
+	}
+	defer stall.Stop()
+	var syns, datas atomic.Int64
+	stall.OnTalk(string(portalwire.History), func(from *enode.Node, addr *net.UDPAddr, msg []byte) []byte {
+		if len(msg) == 0 || msg[0] != portalwire.OFFER {
+			return nil
+		}
+		off := &portalwire.Offer{}
+		if off.UnmarshalSSZ(msg[1:]) != nil {
+			return nil
+		}
+		a := &portalwire.AcceptV1{ConnectionId: []byte{0, 77}, ContentKeys: make([]byte, len(off.ContentKeys))}
+		b, _ := a.MarshalSSZ()
+		return append([]byte{portalwire.ACCEPT}, b...)
+	})
+	stall.OnTalk("utp", func(from *enode.Node, addr *net.UDPAddr, pkt []byte) []byte {
+		if len(pkt) < 20 {
+			return []byte{}
+		}
+		switch pkt[0] >> 4 {
+		case 4: // ST_SYN: acknowledged with a STATE
+			syns.Add(1)
+			reply := make([]byte, 20)
+			reply[0] = 2<<4 | 1
+			copy(reply[2:4], pkt[2:4])
+			binary.BigEndian.PutUint32(reply[4:8], uint32(time.Now().UnixMicro()))
+			binary.BigEndian.PutUint32(reply[12:16], 1<<20)
+			binary.BigEndian.PutUint16(reply[16:18], 1000)
+			copy(reply[18:20], pkt[16:18])
+			to := netip.AddrPortFrom(netutil.IPToAddr(addr.IP), uint16(addr.Port))
+			go stall.Disc.SendNoResp(from, to, &v5wire.TalkRequest{Protocol: "utp", Message: reply})
+		case 0: // ST_DATA: never acknowledged
+			datas.Add(1)
+		}
+		return []byte{}
+	})
+	var sres []chan *portalwire.OfferTrace
+	for i := 0; i < limit && i < 4; i++ {
+		permit, ok := w.node.Utp.GetOutboundPermit()
+		if !ok {
+			break
+		}
+		res := make(chan *portalwire.OfferTrace, 1)
+		req := &portalwire.OfferRequest{Kind: portalwire.TransientOfferRequestWithResultKind, Request: &portalwire.TransientOfferRequestWithResult{
+			Content: &portalwire.ContentEntry{ContentKey: []byte{0x00, byte(i), 9, 9}, Content: make([]byte, 3000)}, Result: res}}
+		if _, err := w.node.P.VerifOffer(stall.Self(), req, permit); err != nil {
+			r.Inconclusive("stalling-peer scenario: offer failed: %v", err)
+			return
+		}
+		sres = append(sres, res)
+	}
+	if len(sres) == limit {
+		// scheduling only: let the node connect and hand its bytes to the stream
+		deadline := time.Now().Add(3 * time.Second)
+		for datas.Load() < int64(len(sres)) && time.Now().Before(deadline) {
+			time.Sleep(5 * time.Millisecond)
+		}
+		time.Sleep(100 * time.Millisecond)
+		pending := func() bool {
+			for _, c := range sres {
+				if len(c) > 0 {
+					return false
+				}
+			}
+			return true
+		}
+		if datas.Load() >= int64(len(sres)) && pending() {
+			extra, ok := w.node.Utp.GetOutboundPermit()
+			if ok {
+				extra.Release()
+			}
+			r.Eval(1)
+			r.Count("slot_held_while_stream_unacknowledged_checked", 1)
+			r.Distinct(fmt.Sprintf("outbound/held-while-unacknowledged/limit%d", limit))
+			if ok && pending() {
+				r.Violation("more-transfers-than-limit:outbound:slot-free-while-stream-unacknowledged",
+					fmt.Sprintf("with a limit of %d, %d accepted offers whose streams are connected and written but not acknowledged by the peer (no result reported yet) — and a further outbound slot is obtainable", limit, len(sres)),
+					map[string]any{"limit": limit, "transfers_in_progress": len(sres), "syns_seen_by_peer": syns.Load(), "data_packets_seen_by_peer": datas.Load()})
+			}
+		} else {
+			r.Count("stalling_peer_scenario_not_reached_info", 1)
+		}
+	}
+	w.verdict("offer:accepted-connected-never-acknowledged", "outbound", 150*time.Second, nil)
 }
 
 // inboundPaths: peers offer to the node and then misbehave on the transfer.
@@ -590,6 +683,13 @@ func gossipPaths(r *lib.Run, idx, limit int) {
 		p.mode.Store(modes[i%len(modes)])
 		p.hold = 40 * time.Millisecond // keep the exchange open long enough to overlap
 		w.node.P.AddEnr(p.adv.Self())  // in the table, radius known (maximum)
+	}
+	// three more covered targets that share no protocol version with the node (and nobody listens there): the queued
+	// offer ends before anything is sent
+	xr := r.RNG("gossip-no-common-version", idx)
+	for k, vs := range [][]uint8{{2}, {7, 9}, {255}} {
+		x := pnode.SignedNode(pnode.NewKey(xr), pnode.Addr4(10, 16, 9, byte(1+k), 9700).Addr(), 9700+k, 1, pnode.VersionsEntry(vs))
+		w.node.P.AddEnr(x)
 	}
 	rounds := 6
 	for i := 0; i < rounds; i++ {
